@@ -85,11 +85,21 @@ def harness():
 
 
 def gen_case(rng) -> Case:
-    shape = rng.choice(["small", "small", "many-peers", "many-shards", "expiry", "degenerate"])
+    shape = rng.choice(["small", "small", "many-peers", "many-shards", "expiry", "degenerate", "foreign-table"])
     target = rng.choice([0, 1, 2, 3, 3, 5, 8, 40])
     mn = rng.choice([0, 1, 2, 2, 4, 9])
     sample = rng.choice([0, 1, 2, 4, 8, 8, 16, 50])
     ops = [f"cfg {target} {mn} {sample}"]
+    if shape == "foreign-table":
+        # the table is kept under another local id, so it can hold the node's own id (s0): the plan
+        # must still never name s0, also when s0 is the only (or the closest sampled) candidate
+        ops = [f"cfg {target} {mn} {rng.choice([1, 1, 2, sample])}", f"tself t{rng.randint(1, 9)}", "peer s0 600"]
+        for p in [f"p{i+1}" for i in range(rng.choice([0, 0, 1, 2, 5]))]:
+            ops.append(f"peer {p} {rng.choice([60, 600])}")
+        for _ in range(rng.randint(1, 3)):
+            ns = rng.randint(1, 6)
+            ops.append(f"plan c{rng.randint(1, 40)} {rng.choice([1, 2, 3])} " + ".".join(str(i + 1) for i in range(ns)))
+        return Case(ops=ops, tag=shape)
     npeers = {"small": rng.randint(0, 5), "many-peers": rng.randint(6, 30), "many-shards": rng.randint(1, 6),
               "expiry": rng.randint(2, 8), "degenerate": rng.choice([0, 1])}[shape]
     peers = [f"p{i+1}" for i in range(npeers)]
